@@ -563,7 +563,9 @@ Proof.
     + apply aids_ok_snoc. eapply aids_ok_ext; [apply map_fst_update|exact Hids].
   - (* AAccept *)
     destruct (lookup (ah s) sh) as [[c|c|o|ms|c [|]|]|] eqn:El; cbn [fst]; try (constructor; auto; fail).
-    destruct (k_recv (ak s) c) as [m k'| |] eqn:Er; cbn [fst]; try (constructor; auto; fail).
+    destruct (k_recv (ak s) c) as [m k'| |] eqn:Er; cbn [fst]; try (constructor; auto; fail);
+      [|apply a_inv_intro; [|eapply aids_ok_ext; [apply map_fst_update|exact Hids]];
+        eapply k_close_kinvG; [exact K|]; exact (ahandle_refs_update_gone _ _ _ El)].
     destruct (undecodable m); cbn [fst]; [constructor; auto|].
     pose proof (k_recv_kinvG _ _ _ _ _ K Er) as K'.
     set (hs0 := update (ah s) sh OGone ++ [(anext s, OR c)]).
@@ -719,3 +721,25 @@ Proof.
   rewrite E. cbn [lookup]. now rewrite Nat.eqb_refl.
 Qed.
 Print Assumptions accept_returns_first.
+
+Lemma lookup_update_same {B} : forall (l : list (hid * B)) h v w, lookup l h = Some w -> lookup (update l h v) h = Some v.
+Proof.
+  induction l as [|[x w0] t IH]; intros h v w H; cbn [lookup update] in *; [discriminate|].
+  destruct (Nat.eqb x h) eqn:E; cbn [lookup]; rewrite E; eauto.
+Qed.
+
+(* a client that connected and went away without sending (no reference to the sending end is left anywhere, nothing is queued):
+   accept neither blocks nor panics - it reports 'disconnected', the server is consumed and nothing of it stays behind *)
+Theorem accept_of_a_departed_client : forall s sh c, a_inv s ->
+  lookup (ah s) sh = Some (OSrv c true) -> q (get_chan (ak s) c) = [] -> refs (ak s) (RS c) = 0 ->
+  snd (a_step s (AAccept sh)) = QDisconnected /\
+  lookup (ah (fst (a_step s (AAccept sh)))) sh = Some OGone /\
+  ak (fst (a_step s (AAccept sh))) = k_close (ak s) (RR c) /\
+  a_inv (fst (a_step s (AAccept sh))).
+Proof.
+  intros s sh c I Hl Hq Hr. pose proof (a_inv_step s (AAccept sh) I) as I'.
+  assert (E : k_recv (ak s) c = KClosed) by (unfold k_recv; rewrite Hq, Hr; reflexivity).
+  cbn [a_step] in *. rewrite Hl, E in *. cbn [fst snd ak ah] in *.
+  split; [reflexivity|]. split; [eapply lookup_update_same; eauto|]. split; [reflexivity|exact I'].
+Qed.
+Print Assumptions accept_of_a_departed_client.
